@@ -215,6 +215,33 @@ def render(items, rng, kinds):
     return '\n'.join(lines) + '\n'
 
 
+def safe_rewrite(rng, text, mnemonics):
+    """Line-based rewrites that are safe without an AST (used on the repository's example programs): blank lines,
+    trailing comments, wider whitespace runs outside strings, indentation, upper-case leading mnemonic."""
+    import re
+    out = []
+    for line in text.split('\n'):
+        if rng.random() < 0.08:
+            out.append('')
+        body = line.split(';', 1)[0]
+        plain = '"' not in line and "'" not in line and not body.strip().startswith('#')
+        new = line
+        if plain and body.strip():
+            if rng.random() < 0.3:
+                # widen existing runs of blanks between tokens
+                new = re.sub(r'(?<=\S)[ \t]+(?=\S)', lambda m: rng.choice([' ', '  ', '\t', ' \t']), body.rstrip()) + \
+                    (' ;' + line.split(';', 1)[1] if ';' in line else '')
+            m = re.match(r'^(\s*)([A-Za-z][\w.]*)(\s|$)', new)
+            if m and m.group(2).lower() in mnemonics and rng.random() < 0.3:
+                new = m.group(1) + m.group(2).upper() + new[m.end(2):]
+            if ';' not in new and rng.random() < 0.15:
+                new = new.rstrip() + rng.choice(['  ; added comment', '\t;x', ' ;; nop'])
+            if rng.random() < 0.1:
+                new = rng.choice(['  ', '\t']) + new
+        out.append(new)
+    return '\n'.join(out)
+
+
 class C18(core.Check):
     pid = 'C18'
     level = 'exploration'
@@ -230,9 +257,49 @@ class C18(core.Check):
     chunk = 900
     required_buckets = {**{'alone:' + k: 3 for k in REWRITES}, 'all-together': 3, 'tab-after-mnemonic': 3,
                         'upper-register-in-brackets': 3, 'upper-register-indexed': 3, 'label-contains-mnemonic': 3,
-                        'joined>=2': 3, 'joined>=3': 3, 'label-in-front-of-local-reference': 3}
+                        'joined>=2': 3, 'joined>=3': 3, 'label-in-front-of-local-reference': 3, 'corpus-example': 3}
+
+    def corpus_cases(self, tier, seed):
+        import os
+        import sys
+        from vf import runner
+        sys.path.insert(0, os.path.join(runner.VERIF_ROOT, 'tools'))
+        import examples_screen
+        import yaml
+        root = runner.repo_root()
+        progs = list(examples_screen.programs(root))
+        if tier == 'quick':
+            progs = [progs[1], progs[4], progs[-1]]
+        for pi, (srcp, isap) in enumerate(progs):
+            d = os.path.dirname(srcp)
+            files = {}
+            for fn_ in os.listdir(d):
+                p_ = os.path.join(d, fn_)
+                if os.path.isfile(p_) and os.path.splitext(fn_)[1] in examples_screen.EXT2ISA:
+                    files['ex/' + fn_] = open(p_, encoding='utf-8', errors='surrogateescape').read()
+            isa_text = open(isap).read()
+            files['isa.yaml'] = isa_text
+            try:
+                cfg = yaml.safe_load(isa_text)
+                mns = {str(k).lower() for k in cfg.get('instructions', {})} | {str(k).lower() for k in (cfg.get('macros') or {})}
+            except Exception:
+                mns = set()
+            main = 'ex/' + os.path.basename(srcp)
+            run = lambda fl: {'files': fl, 'argv': ['compile', '-c', 'isa.yaml', main, '-o', 'out.bin'], 'probes': [],   # noqa: E731
+                              'cpu_s': 60, 'wall_s': 120}
+            runs = [run(files)]
+            for k in range(3):
+                rng = core.rng_for(seed, self.pid, 'corpus', pi, k)
+                fl = dict(files)
+                for name in list(fl):
+                    if name.startswith('ex/'):
+                        fl[name] = safe_rewrite(rng, fl[name], mns)
+                runs.append(run(fl))
+            yield {'runs': runs, 'meta': {'kinds': [['corpus-safe-rewrites']] * 3, 'vtags': [['corpus-example']] * 3,
+                                          'mns': [os.path.basename(srcp)]}, 'tags': []}
 
     def cases(self, tier, seed):
+        yield from self.corpus_cases(tier, seed)
         n_pre = 120
         n = 150 if tier == 'quick' else 3000
         k_var = 4 if tier == 'quick' else 16
@@ -282,37 +349,45 @@ class C18(core.Check):
             yield {'runs': [run(canon)] + [run(src) for _, src in variants],
                    'meta': {'kinds': [ks for ks, _ in variants], 'vtags': vtags, 'mns': mns}, 'tags': []}
 
+    @staticmethod
+    def _src(run):
+        f = run['files']
+        if 'p.asm' in f:
+            return f['p.asm']
+        main = run['argv'][3]
+        return f.get(main, '')[:3000]
+
     def judge(self, case, outcomes):
         c = outcomes[0]
         m = case['meta']
         if c.get('timed_out'):
-            return [core.violated('termination:' + str(c['timed_out']), {'src': case['runs'][0]['files']['p.asm']})]
+            return [core.violated('termination:' + str(c['timed_out']), {'src': self._src(case['runs'][0])})]
         cimg = (c.get('files') or {}).get('out.bin')
         if c.get('exit') != 0 or cimg is None:
             return [core.violated('canonical-rendering-rejected', {'stderr': (c.get('stderr') or '')[-400:],
-                                                                   'src': case['runs'][0]['files']['p.asm']})]
+                                                                   'src': self._src(case['runs'][0])})]
         vs = []
         for i, o in enumerate(outcomes[1:]):
             ks = m['kinds'][i]
             tags = m['vtags'][i]
             nt = ','.join(ks) + '|' + ','.join(m['mns'])
             img = (o.get('files') or {}).get('out.bin')
-            src = case['runs'][i + 1]['files']['p.asm']
+            src = self._src(case['runs'][i + 1])
             if o.get('timed_out'):
                 vs.append(core.violated('termination:' + str(o['timed_out']), {'src': src}))
             elif o.get('exit') != 0 or img is None:
                 err = (o.get('stderr') or '').strip().splitlines()
                 sig = 'rewritten-rejected/' + ('+'.join(ks) if len(ks) <= 2 else 'several')
                 vs.append(core.violated(sig, {'kinds': ks, 'stderr': '\n'.join(err[-3:])[-400:], 'rewritten': src,
-                                              'canonical': case['runs'][0]['files']['p.asm']}, buckets=tags, nt=nt))
+                                              'canonical': self._src(case['runs'][0])}, buckets=tags, nt=nt))
             elif img != cimg:
                 sig = 'rewritten-image-differs/' + ('+'.join(ks) if len(ks) <= 2 else 'several')
-                vs.append(core.violated(sig, {'kinds': ks, 'rewritten': src, 'canonical': case['runs'][0]['files']['p.asm'],
+                vs.append(core.violated(sig, {'kinds': ks, 'rewritten': src, 'canonical': self._src(case['runs'][0]),
                                               'image': img[:200], 'canonical_image': cimg[:200]}, buckets=tags, nt=nt))
             else:
                 vs.append(core.held(buckets=tags, nt=nt))
         return vs
 
     def sample_of(self, case, outcomes):
-        return {'canonical': case['runs'][0]['files']['p.asm'][:500], 'rewritten(all kinds)': case['runs'][len(REWRITES) + 1]['files']['p.asm'][:700],
+        return {'canonical': self._src(case['runs'][0])[:500], 'rewritten(all kinds)': self._src(case['runs'][min(len(REWRITES) + 1, len(case['runs']) - 1)])[:700],
                 'image': (outcomes[0].get('files') or {}).get('out.bin', '')[:80]}
